@@ -206,6 +206,13 @@ func runC19(c *Ctx) {
 				}
 			}
 		}
+		for k, v := range want {
+			if n, ok := ints[k]; ok && fmt.Sprint(n) == v {
+				if _, stored := got[k]; !stored {
+					delete(want, k) // keeping a newline needs no store
+				}
+			}
+		}
 		keys := []string{}
 		for k := range got {
 			keys = append(keys, k)
